@@ -69,7 +69,7 @@ PLAN = {
     },
     "C07": {
         "schema": True, "reencode": True,
-        "mc": [M("wire", "MC_Wire.tla", "MC_Wire.cfg")],
+        "mc": [M("wire", "MC_Wire.tla", "MC_Wire.cfg")], "via_artifact": True,
         "gen": [G("wire", "Gen_Wire.cfg", module="Gen_Wire.tla")],
         "drive": [D("wire", 600, 20000)],
         "static": [schema_events],
